@@ -1,0 +1,40 @@
+//go:build verif
+
+package main
+
+import (
+	"bytes"
+	"strings"
+)
+
+func verifPairs(a []string) (pairs []string, rest []string) {
+	n := verifInt(a[0])
+	for i := 0; i < 2*n; i++ {
+		pairs = append(pairs, string(verifUnhex(a[1+i])))
+	}
+	return pairs, a[1+2*n:]
+}
+
+var _ = func() bool {
+	// revcontent <n> (key value)*n <input> : the real reverseContent over strings.NewReplacer
+	verifOps["revcontent"] = func(a []string) string {
+		pairs, rest := verifPairs(a)
+		var out bytes.Buffer
+		modified, err := reverseContent(&out, bytes.NewReader(verifUnhex(rest[0])), strings.NewReplacer(pairs...))
+		if err != nil {
+			return "err"
+		}
+		m := "0"
+		if modified {
+			m = "1"
+		}
+		return verifHex(out.Bytes()) + " " + m
+	}
+	// repl <n> (key value)*n <input> : the replacer garble injects into binaries, and strings.NewReplacer
+	verifOps["repl"] = func(a []string) string {
+		pairs, rest := verifPairs(a)
+		in := string(verifUnhex(rest[0]))
+		return verifHex([]byte(_makeGenericReplacer(pairs).Replace(in))) + " " + verifHex([]byte(strings.NewReplacer(pairs...).Replace(in)))
+	}
+	return true
+}()
